@@ -166,8 +166,10 @@ class MediaRequestBase(RequestHandlerBase):
                 mode, representation, timing, seg_num, seg_time)
             assert sn is not None
             seg_num = sn
-        except ValueError as err:
-            logging.warning('ValueError: %s', err)
+        except (ValueError, OverflowError) as err:
+            # OverflowError: a segment number or time beyond anything that
+            # can be converted to a time
+            logging.warning('%s: %s', type(err).__name__, err)
             return flask.make_response('Not Found', 404)
 
         assert mod_segment is not None
@@ -575,6 +577,8 @@ class ServeMpsMedia(MediaRequestBase):
             origin_time += seg_time
 
         if seg_num is not None:
+            if seg_num < representation.start_number:
+                raise ValueError('Segment before start of period')
             mod_seg += seg_num - representation.start_number
             if mod_seg > representation.num_media_segments:
                 logging.warning(
